@@ -32,3 +32,16 @@ def run(model, tier="quick"):
     ]
     res.not_decided = ["values of the views themselves (formula identity of the fill expressions is checked under C10/C11)"]
     return res
+
+MANIFEST = {
+    "technique": "typestate analysis of memo caches (empty / filled-consistent / stale) over inlined method bodies",
+    "claim": "For every method of AaveV3Market (callees inlined, all paths): after a write to anything a DictCache's fill "
+             "expression reads (derived from the source), the cache is reset before it is read and before the method is "
+             "left (by return; by rejection for user operations). As this holds at every method boundary it covers every "
+             "interleaving of view reads with supply/withdraw/borrow/repay/collateral change/liquidation/new bar. With "
+             "valid caches each view is its from-scratch formula by construction. Plus a who-writes check that no other "
+             "module writes the positions or caches.",
+    "note": "Trusted: dependency derivation through the interpreter's read events; the collateral-conditional idiom (a "
+            "non-collateral supply is not part of the collateral view); saved-copy restore recognition. Stale-at-raise is "
+            "not checked inside bar-end liquidation (an uncaught exception there aborts the run).",
+}
